@@ -234,7 +234,10 @@ def run_history(case: dict) -> list:
             snap0 = tree_snapshot(root)
             # what is named on the command line may be directories (with --recursive) while `names` are the files observed
             cmd = [*req_options(req), *flavour_options(fl), *[str(root / n) for n in step.get("cli_targets", names)]]
-            if step.get("hashseed") is not None:
+            if step.get("locale_c"):
+                import annmodel as _am
+                r = core.run_reuse_subprocess(["--root", str(root), "annotate", *cmd], env=_am.C_LOCALE)
+            elif step.get("hashseed") is not None:
                 # the order in which annotate visits its files follows the string hash seed: a fresh interpreter per seed
                 r = core.run_reuse_subprocess(["--root", str(root), "annotate", *cmd], env={"PYTHONHASHSEED": str(step["hashseed"])})
             else:
